@@ -47,6 +47,14 @@ func drivers(quick bool) []conc.Driver {
 		cfg2.MaxFaults = 2
 		ds = append(ds, conc.Driver{Name: s.Name() + "-faults2", Cfg: cfg2, Mk: func() vrt.Run { return s.Mk() }, Fallback: []int{0, 1, 2, 3, 4}})
 	}
+	for _, s := range []mdrv.Scenario{
+		// a failed and cleared cycle, then an ordinary one drained under AutoClear: no run file may be left
+		{Chunk: 1, Concurrent: false, Cycles: []int{2, 2}, Faults: true, Continue: true, AutoClear: true, Residue: true},
+		{Chunk: 1, Concurrent: true, Cycles: []int{2, 1}, Faults: true, Continue: true, AutoClear: true, Residue: true},
+	} {
+		s := s
+		ds = append(ds, conc.Driver{Name: s.Name() + "-faults1", Cfg: cfg, Mk: func() vrt.Run { return s.Mk() }, Fallback: []int{0, 1, 2, 3, 4}})
+	}
 	for _, s := range scs {
 		s := s
 		ds = append(ds, conc.Driver{Name: s.Name() + "-faults1", Cfg: cfg, Mk: func() vrt.Run { return s.Mk() }, Fallback: []int{0, 1, 2, 3, 4}})
